@@ -8,6 +8,7 @@ import (
 	"maps"
 	"slices"
 	"strings"
+	"time"
 
 	"github.com/honeycombio/refinery/config"
 	jsoniter "github.com/json-iterator/go"
@@ -943,7 +944,7 @@ func (p Payload) MarshalMsg(buf []byte) ([]byte, error) {
 
 		buf = msgp.AppendString(buf, key)
 		var err error
-		buf, err = msgp.AppendIntf(buf, value)
+		buf, err = appendMemoizedValue(buf, value)
 		if err != nil {
 			return buf, err
 		}
@@ -995,6 +996,37 @@ func (p Payload) MarshalMsg(buf []byte) ([]byte, error) {
 	buf[startLen+2] = byte(actualCount)
 
 	return buf, nil
+}
+
+// appendMemoizedValue is msgp.AppendIntf, except that a time value (a msgpack timestamp the client sent
+// inside the payload, decoded because its field was memoized) is written with the standard timestamp
+// extension (-1) it arrived with, not with msgp's private time extension (5), also inside maps and arrays.
+func appendMemoizedValue(buf []byte, value any) ([]byte, error) {
+	var err error
+	switch v := value.(type) {
+	case time.Time:
+		return msgp.AppendTimeExt(buf, v), nil
+	case map[string]any:
+		buf = msgp.AppendMapHeader(buf, uint32(len(v)))
+		for k, elem := range v {
+			buf = msgp.AppendString(buf, k)
+			buf, err = appendMemoizedValue(buf, elem)
+			if err != nil {
+				return buf, err
+			}
+		}
+		return buf, nil
+	case []any:
+		buf = msgp.AppendArrayHeader(buf, uint32(len(v)))
+		for _, elem := range v {
+			buf, err = appendMemoizedValue(buf, elem)
+			if err != nil {
+				return buf, err
+			}
+		}
+		return buf, nil
+	}
+	return msgp.AppendIntf(buf, value)
 }
 
 // TODO implement Sizer so buffer can be correctly presized
